@@ -197,11 +197,21 @@ func Faultable(name string) bool {
 // child's exit code: 0 = the scripted operation returned nil, 80 = it returned an
 // error; anything else is reported as err.
 func (r *Runner) RunFaulted(sc *Script, pt Point, errno string) (exit int, err error) {
+	return r.RunFaultedFrom(sc, pt, errno, false)
+}
+
+// RunFaultedFrom is RunFaulted; with persistent, the addressed call and every later
+// call of the same kind fail (a disk that stays full).
+func (r *Runner) RunFaultedFrom(sc *Script, pt Point, errno string, persistent bool) (exit int, err error) {
 	p, err := r.writeScript(sc, "script-run.json")
 	if err != nil {
 		return -1, err
 	}
-	cmd := exec.Command("strace", "-o", "/dev/null", "-e", "trace="+traceSet, "-e", fmt.Sprintf("inject=%s:error=%s:when=%d", pt.Syscall, errno, pt.N), r.Child, "run", p)
+	when := fmt.Sprint(pt.N)
+	if persistent {
+		when += "+"
+	}
+	cmd := exec.Command("strace", "-o", "/dev/null", "-e", "trace="+traceSet, "-e", fmt.Sprintf("inject=%s:error=%s:when=%s", pt.Syscall, errno, when), r.Child, "run", p)
 	cmd.Env = childEnv()
 	out, rerr := cmd.CombinedOutput()
 	if rerr == nil {
